@@ -79,13 +79,62 @@ def forgeryOracle (args : List String) (obs : String) : Option String :=
   if obs == "true" && kv args "any" != some "1" then some "accepted a signature that is not valid under the active key for any message"
   else none
 
-/-- `sig.verify pk=<mojang|der> key=<hex> sig=<hex> text=<hex> rsa=<0|1> any=<0|1> => true|false|panic` -/
+/-- `for=<hex>`: the harness obtained `sig` by signing, with the active services key, the text of THAT profile key
+    (`for=none`: no such provenance). Accepting it for a different key is accepting a signature the services key
+    never issued for the key presented — whatever text format the verifier uses. `rsa=0` (RSA rejects the
+    signature for the presented key's own PEM text) is required as well, so the oracle asks no more than
+    `C18_verify_sound`. `keyHex` is the presented key as printed on the line. -/
+def crossKeyOracle (args : List String) (keyHex : String) (obs : String) : Option String :=
+  match kv args "for" with
+  | some f =>
+    if obs == "true" && f != "none" && f != keyHex && kv args "rsa" != some "1" then
+      some "accepted, for this key, a signature the services key issued for a different key"
+    else none
+  | none => none
+
+/-- `sig.verify pk=<mojang|der> key=<hex> sig=<hex> [for=<hex|none>] text=<hex> rsa=<0|1> any=<0|1> => true|false|panic` -/
 def sigVerify (args : List String) (obs : String) : Verdict :=
   match hexArg args "key", hexArg args "sig", hexArg args "text", kv args "rsa" with
   | some key, some sig, some text, some rsa =>
     let r := verifySignature (Key := Unit) (fun t => t) (rsaOf text sig (rsa == "1")) () key sig
-    { model := showBool r, spec := forgeryOracle args obs }
+    { model := showBool r, spec := (forgeryOracle args obs) <|> (crossKeyOracle args ((kv args "key").getD "") obs) }
   | _, _, _, _ => { model := "bad-arg" }
+
+def showBytes : Res Bytes → String
+  | .ok b => hexOfBytes b
+  | .err => "err"
+  | .panic => "panic"
+
+/-- `pem.text key=<hex> => <hex text>|panic`: the text built through the repository's line breaker (hook) -/
+def pemTextOp (args : List String) (_obs : String) : Verdict :=
+  match hexArg args "key" with
+  | some key => { model := showBytes (pemText key) }
+  | none => { model := "bad-arg" }
+
+/-- `pem.collide a=<hex> b=<hex> => same|diff|panic`: do two keys give the same hashed text?  Two DIFFERENT keys
+    with the same text is a violation by itself: every signature issued for one verifies for the other. -/
+def pemCollide (args : List String) (obs : String) : Verdict :=
+  match hexArg args "a", hexArg args "b" with
+  | some a, some b =>
+    let model := match pemText a, pemText b with
+      | .ok x, .ok y => if x == y then "same" else "diff"
+      | _, _ => "panic"
+    { model, spec := if obs == "same" && a != b then some "two different keys are hashed to the same message" else none }
+  | _, _ => { model := "bad-arg" }
+
+def parseWrites (s : String) : Option (List Bytes) :=
+  if s == "none" then some [] else (s.splitOn ",").mapM parseHex
+
+/-- `lb.writes w=<hex>,<hex>,…|none => ok <hex>|err|panic`: the line breaker under an arbitrary sequence of writes -/
+def lbWrites (args : List String) (_obs : String) : Verdict :=
+  match (kv args "w").bind parseWrites with
+  | some ws =>
+    let model := match lbWriteAll { line := [], out := [] } ws with
+      | .ok l => "ok " ++ hexOfBytes (lbClose l)
+      | .err => "err"
+      | .panic => "panic"
+    { model }
+  | none => { model := "bad-arg" }
 
 /-- `pubkey.verify pk=… expired=<0|1> der=<hex|err|panic> sig=<hex> text=<hex> rsa=<0|1> any=<0|1> => true|false|panic` -/
 def pubkeyVerify (args : List String) (obs : String) : Verdict :=
@@ -98,7 +147,8 @@ def pubkeyVerify (args : List String) (obs : String) : Verdict :=
     | some m =>
       let r := publicKeyVerify (Key := Unit) (fun t => t) (rsaOf text sig (rsa == "1")) () (expired == "1") m sig
       let spec :=
-        if obs == "true" && expired == "1" then some "accepted an expired key" else forgeryOracle args obs
+        if obs == "true" && expired == "1" then some "accepted an expired key"
+        else (forgeryOracle args obs) <|> (crossKeyOracle args der obs)
       { model := showBool r, spec }
   | _, _, _, _, _ => { model := "bad-arg" }
 
@@ -109,6 +159,9 @@ def handle (op : String) (args : List String) (obs : String) : Option Verdict :=
   | "digest.twos" => some (digestTwos args obs)
   | "sig.verify" => some (sigVerify args obs)
   | "pubkey.verify" => some (pubkeyVerify args obs)
+  | "pem.text" => some (pemTextOp args obs)
+  | "pem.collide" => some (pemCollide args obs)
+  | "lb.writes" => some (lbWrites args obs)
   | _ => none
 
 end Driver.C18
